@@ -509,8 +509,17 @@ fn run_threads(ctx: &Ctx, rep: &mut Report, forced: bool, round: u64) -> bool {
         Ok(s) => s,
         Err(_) => return true,
     };
-    let n_readers = if forced { 2 } else { rng.range(1, 8) as usize };
-    let reader_calls = if forced { 40 } else { rng.range(50, 400) };
+    // every third stress round is a "spin" round: four readers hammer lookups of the nested
+    // non-ASCII paths without the random delays (readers are then inside the shared lock at
+    // the same time, which the delays at the lock events mostly prevent)
+    let spin = !forced && round % 3 == 2;
+    if spin {
+        MODE.store(3, Ordering::Relaxed);
+    }
+    let nested: Vec<usize> = all.iter().enumerate().filter(|(_, p)| !p.is_ascii() && p.matches('/').count() >= 2).map(|(i, _)| i).collect();
+    let nested_ref = &nested;
+    let n_readers = if forced { 2 } else if spin { 4 } else { rng.range(1, 8) as usize };
+    let reader_calls = if forced { 40 } else if spin { 6_000 } else { rng.range(50, 400) };
     let writer_ops = if forced { 60 } else { rng.range(30, 200) };
     {
         let mut g = global();
@@ -565,6 +574,17 @@ fn run_threads(ctx: &Ctx, rep: &mut Report, forced: bool, round: u64) -> bool {
                             break;
                         }
                         k = k.wrapping_mul(6364136223846793005).wrapping_add(1442695040888963407);
+                        if spin && !nested_ref.is_empty() {
+                            // entry / is_stream / is_storage / exists on one of the nested paths
+                            let idx = nested_ref[(k >> 20) as usize % nested_ref.len()] as u64;
+                            let sel = [0u64, 1, 2, 3][(k >> 12) as usize % 4];
+                            let (_, _, bad) = read_only_call_checked(cf_ref, idx * 9 + sel, all_ref, Some(facts_ref));
+                            if let Some(b) = bad {
+                                static_violations.lock().unwrap().push(b);
+                                break;
+                            }
+                            continue;
+                        }
                         if k % 3 == 0 {
                             let tb = TS.fetch_add(1, Ordering::SeqCst);
                             let l = cf_ref.entry(target_ref).map(|e| e.len()).unwrap_or(u64::MAX);
@@ -724,6 +744,10 @@ fn run_threads(ctx: &Ctx, rep: &mut Report, forced: bool, round: u64) -> bool {
             ("reader_observations_checked", J::Int(obs.len() as i128)),
             ("writer_log_head", J::Arr(wlog.iter().take(6).map(|w| J::s(format!("ts {}..{} -> entry len {}", w.0, w.1, w.2))).collect())),
         ]));
+    }
+    if spin {
+        MODE.store(2, Ordering::Relaxed);
+        rep.count("m2.spin_rounds");
     }
     {
         let g = global();
